@@ -83,6 +83,13 @@ CLAIMED = {
          "order-preserving steps only, that function names are copied (init -> __init__), that operator definitions map to the right dunder both ways, "
          "that __init__ is self + class arguments with parent calls first, and that no class member is dropped or ordered by hash.",
          "That __init__ bodies perform the right assignments for every program is not decided.", "5/C17"),
+ "C01": ("chain composition over five stage tables (lexer spelling, expression parser, Node->NodeTy, NodeTy->Core, printer template) against the documented operator table + drop review + conversion census + sibling agreement of the desugaring walkers + construction-site table of range/slice + State-flag site census; reuses the C10 (grouping) and C11 (annotate) rule sets",
+         "Decides the shape-level necessary conditions of meaning preservation: each of the 34 operator rows keeps its documented meaning and operand order through "
+         "all five stages and is converted one-to-one; only reviewed type-level variants vanish at a stage boundary; every child of every node taken apart in "
+         "generate::convert is converted (181 rows); append_ret and append_assign descend through the same fields of the same 7 compound variants; range/slice "
+         "arguments are from, to(+1 iff inclusive), step default 1; implicit return is requested only for a declared return type and the pending flags are reset "
+         "for children; printing never regroups operators (C10) and the annotate flag reaches annotations only (C11).",
+         "Equality of observable behaviour is not decided. Known findings: D34 (`?` printed as `or`), D35 (slice ends off by one), D36 (inclusive range with negative step), D2c (explicit parentheses on same-level right operands).", "5/C01"),
  "C04": ("traversal census of the constraint generator + constraint census + dispatch totality + operator->protocol-method agreement through the Node->NodeTy->Core->printer chain + strict-lookup Ok-path rule on MIR + stub signatures against a frozen CPython table",
          "Decides the structural necessary conditions of soundness: every AST child the generator takes apart is visited, delegated or rejected "
          "(317 rows; the unvisited ones are reviewed, 4 are genuine findings), every variant is dispatched to a handler arm, every operator is typed by "
